@@ -132,7 +132,7 @@ Init ==
     /\ pool = 0
     /\ gh = [cg |-> [n \in Files |-> 0],
              seen |-> [n \in Plain |-> NeverBuilt],
-             fails |-> {}, src |-> {}, codes |-> {}, crashes |-> 0, crashNow |-> FALSE]
+             fails |-> {}, src |-> {}, codes |-> {}, crashes |-> 0, crashNow |-> FALSE, inner |-> {}]
 
 Bump(n) == [gh EXCEPT !.cg[n] = @ + 1, !.src = @ \ {n}]
 
@@ -226,7 +226,7 @@ StartBuild(c) ==
                                            !.targs = c.targs, !.tok = 1])
     \* only `redo -jN` creates more than one token; redo-ifchange at top level runs -j1
     /\ pool' = IF c.kind = "redo" THEN c.j - 1 ELSE 0
-    /\ gh' = [gh EXCEPT !.fails = {}, !.codes = {}, !.crashNow = FALSE]
+    /\ gh' = [gh EXCEPT !.fails = {}, !.codes = {}, !.crashNow = FALSE, !.inner = {}]
     /\ UNCHANGED <<fs, tmp, clock, w, locks, hist>>
 
 EndBuild ==
@@ -537,6 +537,26 @@ ScriptStep(s) ==
                                       ![s].decl = @ \cup {[m |-> "m", n |-> o.args[i]] : i \in 1..Len(o.args)}], k,
                                    SubRedo(S, s, o.args, FALSE, FALSE, S.t, S.cyc))
                  /\ UNCHANGED <<fs, tmp, clock, w, runid, locks, cmd, hist, ran, ncmds, pool, gh>>
+            [] op = "redo" ->
+                 \* a forced `redo args` inside the script (no dependency is declared); with ch = "ignore" the
+                 \* script goes on when it fails (`redo x || true`)
+                 LET k == s \o <<ToString(S.opi)>> IN
+                 /\ procs' = Spawn([procs EXCEPT ![s].kid = k, ![s].tok = 0], k,
+                                   [SubRedo(S, s, o.args, FALSE, FALSE, "", S.cyc) EXCEPT !.forced = TRUE])
+                 /\ gh' = [gh EXCEPT !.inner = @ \cup {o.args[i] : i \in 1..Len(o.args)}]
+                 /\ UNCHANGED <<fs, tmp, clock, w, runid, locks, cmd, hist, ran, ncmds, pool>>
+            [] op = "touch" ->
+                 \* a side file redo knows nothing about (it is nobody's dependency)
+                 /\ fs' = [fs EXCEPT ![o.args[1]] = [ex |-> TRUE, val |-> [n |-> o.args[1], k |-> "side", v |-> 0, d |-> <<>>],
+                                                    ver |-> clock + 1, own |-> "script"]]
+                 /\ clock' = clock + 1
+                 /\ procs' = [procs EXCEPT ![s] = nxt]
+                 /\ gh' = Bump(o.args[1])
+                 /\ UNCHANGED <<tmp, w, runid, locks, cmd, hist, ran, ncmds, pool>>
+            [] op = "failif" ->
+                 \* exit o.rc if the side file exists
+                 /\ procs' = [procs EXCEPT ![s] = IF fs[o.args[1]].ex THEN [S EXCEPT !.pc = "done", !.rc = o.rc] ELSE nxt]
+                 /\ UNCHANGED <<fs, tmp, clock, w, runid, locks, cmd, hist, ran, ncmds, pool, gh>>
             [] op = "ifcreate" ->
                  \* ifcreate.rs: an existing path is an error before the edge is added
                  LET F[k \in 0..Len(o.args)] ==
@@ -595,8 +615,10 @@ ScriptResume(s) ==
     LET S == procs[s] IN
     /\ S.kind \in {"script", "unlocked"} /\ S.pc = "run" /\ S.kid # NoPid
     /\ Alive(S.kid) /\ procs[S.kid].pc = "done"
-    /\ LET rc == procs[S.kid].rc IN
-       procs' = Kill([procs EXCEPT ![s] = IF rc # 0 THEN [S EXCEPT !.pc = "done", !.rc = rc, !.kid = NoPid, !.tok = 1]
+    /\ LET rc == procs[S.kid].rc
+           ign == S.kind = "script" /\ S.opi <= Len(OpsOf(S)) /\ OpsOf(S)[S.opi].ch = "ignore"
+       IN
+       procs' = Kill([procs EXCEPT ![s] = IF rc # 0 /\ ~ign THEN [S EXCEPT !.pc = "done", !.rc = rc, !.kid = NoPid, !.tok = 1]
                                           ELSE [S EXCEPT !.opi = S.opi + 1, !.kid = NoPid, !.tok = 1]],
                      {S.kid})
     /\ UNCHANGED <<fs, tmp, clock, w, runid, locks, cmd, hist, ran, ncmds, pool, gh>>
